@@ -99,7 +99,7 @@ def op_line(o):
     if k == "router_receive":
         return "router_receive %d %d %d %s" % (o[1], o[2], o[3], hook_line(o[4]))
     if k == "fac_update_config":
-        return "fac_update_config %d %s" % (o[1], o_line(o[2]))
+        return "fac_update_config %d %s" % (o[1], o_line(o[2])) + (" %d" % o[3] if len(o) > 3 and o[3] else "")
     if k == "fac_create_pair":
         return "fac_create_pair %d %s %s %d %s %d %d %s %s" % (o[1], a_line(o[2]), a_line(o[3]), len(o[4]),
                                                                " ".join(str(x) for x in o[4]), o[5], o[6], o_line(o[7]), o_line(o[8]))
@@ -184,11 +184,14 @@ class WorldProc:
 class Hist:
     """One history: talks to the harness and mirrors the snapshot layout of World/Observe.v."""
 
-    def __init__(self, nu, nd, nt, maxp, ubal, fbal, tdecs, stream="random", note=None):
+    def __init__(self, nu, nd, nt, maxp, ubal, fbal, tdecs, stream="random", note=None, look=None):
         self.nu, self.nd, self.nt, self.maxp = nu, nd, nt, maxp
         self.ubal, self.fbal, self.tdecs = ubal, fbal, list(tdecs)
         self.stream, self.note = stream, note
+        self.look = look        # (d, t): bank denom d is spelled like the address of contract t (the model keeps them apart)
         self.proc = WorldProc()
+        if look is not None:
+            self.proc.ask("lookalike %d %d" % look)
         out = self.proc.ask("init %d %d %d %d %d %d %s" % (nu, nd, nt, maxp, ubal, fbal, " ".join(str(t) for t in tdecs)))
         self.snap = [int(x) for x in out.split()[1:]]
         self.init_snap = list(self.snap)
@@ -321,7 +324,7 @@ class HistCase(Case):
         Case.__init__(self, "hist", [], [], h.stream, h.note)
         self.h = h
         self.results = []
-        self._key = hashlib.sha1(repr((h.nu, h.nd, h.nt, h.maxp, h.ubal, h.fbal, h.tdecs,
+        self._key = hashlib.sha1(repr((h.nu, h.nd, h.nt, h.maxp, h.ubal, h.fbal, h.tdecs, h.look,
                                        [(s[0], s[1]) for s in h.steps])).encode()).hexdigest()
 
     def key(self):
@@ -352,7 +355,8 @@ class HistCase(Case):
         h = self.h
         return {"checker": "hist", "stream": self.stream, "note": self.note,
                 "world": {"users": h.nu, "denoms": h.nd, "tokens": h.nt, "maxpairs": h.maxp, "user_balance": str(h.ubal),
-                          "factory_balance": str(h.fbal), "token_decimals": h.tdecs},
+                          "factory_balance": str(h.fbal), "token_decimals": h.tdecs,
+                          "lookalike": list(h.look) if h.look else None},
                 "steps": [{"op": op_line(s[0]), "ok": s[1], "swap_attrs": [str(x) for x in s[2]],
                            "quote": [str(x) for x in s[3]], "changed_slots": len(s[4]),
                            "queries": [q[0] for q in s[5]]} for s in h.steps]}
@@ -386,7 +390,7 @@ def replay_hist(j):
     """rebuild a history from its JSON form by re-running the operations on the real code"""
     w = j["world"]
     h = Hist(w["users"], w["denoms"], w["tokens"], w["maxpairs"], int(w["user_balance"]), int(w["factory_balance"]),
-             w["token_decimals"], "replay")
+             w["token_decimals"], "replay", look=tuple(w["lookalike"]) if w.get("lookalike") else None)
     for s in j["steps"]:
         for ql in s.get("queries", []):
             kq = ql.split()[0]
@@ -418,6 +422,9 @@ class _Cur:
         v = self.t[self.i]
         self.i += 1
         return v
+
+    def more(self):
+        return self.i < len(self.t)
 
     def num(self):
         return int(self.nx())
@@ -475,7 +482,8 @@ def parse_op_line(line):
     if k == "router_receive":
         return (k, c.num(), c.num(), c.num(), c.hook())
     if k == "fac_update_config":
-        return (k, c.num(), c.onum())
+        caller, o = c.num(), c.onum()
+        return (k, caller, o, c.num()) if c.more() else (k, caller, o)
     if k == "fac_create_pair":
         caller, a0, a1 = c.num(), c.asset(), c.asset()
         wl = [c.num() for _ in range(c.num())]
@@ -669,7 +677,7 @@ def gen_misc(h, rng, u):
     if pairs:
         a0, a1 = h.pair_assets(p)
         return ("router_op", u, [], a0, a1, None)
-    return ("fac_update_config", u, None)
+    return ("fac_update_config", u, rng.choice([None, u]), rng.randrange(4))
 
 
 # ------------------------------------------------------------------ families
@@ -788,10 +796,13 @@ def auth_matrix(rng, tier):
         fresh = [(a, b) for i, a in enumerate(assets) for b in assets[i + 1:]
                  if (a, b) not in [(("n", 0), ("t", 2)), (("t", 2), ("t", 3))]]
         rng.shuffle(fresh)
-        for phase in (0, 1):
+        formers = []
+        for phase in (0, 1, 2):
             owner = h.owner()
-            former = USER0 if phase == 1 else None
-            roles = [h.users()[-1], FACTORY, ROUTER, p, lp, 2, created[1]] + ([former] if former is not None else []) + [owner]
+            if phase < 2:
+                roles = [h.users()[-1], FACTORY, ROUTER, p, lp, 2, created[1]] + formers + [owner]
+            else:  # after the second hand-over: only the accounts whose standing the hand-overs changed
+                roles = sorted(set(formers + [USER0 + 1, USER0 + 2]) - {owner}) + [owner]
             for c in roles:
                 wl = [c] if rng.random() < 0.7 else [c, USER0]
                 h.do(("fac_add_native", c, 1, 7 + phase))
@@ -809,10 +820,14 @@ def auth_matrix(rng, tier):
                 h.do(("router_assert_min", c, ("n", 0), 0, 0, USER0))
                 h.do(("router_receive", c, USER0, 5, ("hrouter", [(("n", 0), ("t", 2))], None, None)))
                 if c != owner:
-                    h.do(("fac_update_config", c, c))
-            if phase == 0:
-                h.do(("fac_update_config", owner, None))
-                h.do(("fac_update_config", owner, USER0 + 1))
+                    h.do(("fac_update_config", c, c, rng.randrange(4)))
+            if phase < 2:
+                # hand-over in two shapes of the message: with code ids named too, then the owner alone
+                h.do(("fac_update_config", owner, None, rng.randrange(4)))
+                shape = [[3, 1, 2, 3][rep % 4], 0][phase]
+                nxt = [USER0 + 1, USER0 + 2][phase]
+                h.do(("fac_update_config", owner, nxt, shape))
+                formers.append(owner)
         cases.append(h.finish())
     return cases
 
@@ -878,7 +893,9 @@ def swap_matrix(rng, tier):
     """delivered asset x named asset x named amount x funds x receiver, per pair kind (C02)"""
     cases = []
     for rep in range({"quick": 1, "thorough": 3}[tier]):
-        h = Hist(3, 2, 3, 3, 10 ** 12, 1000, [6, 6, 6], "directed-matrix", "C02 delivered x named matrix")
+        # bank denom 2 is spelled exactly like the address of a cw20 the pairs trade
+        h = Hist(3, 3, 3, 3, 10 ** 12, 1000, [6, 6, 6], "directed-matrix", "C02 delivered x named matrix",
+                 look=(2, 2 + rep % 2))
         created = setup_pairs(h, rng, [(("n", 0), ("n", 1)), (("n", 0), ("t", 2)), (("t", 2), ("t", 3))],
                               comm=3 * 10 ** 15, scale=10 ** 8)
         # make the cw20/cw20 pool lopsided so that naming the other token would pay off
@@ -886,7 +903,7 @@ def swap_matrix(rng, tier):
         a = 500
         for p in created:
             assets = h.pair_assets(p)
-            named_set = assets + [("t", 4), ("n", 1 if ("n", 1) not in assets else 0)]
+            named_set = assets + [("t", 4), ("n", 1 if ("n", 1) not in assets else 0), ("n", 2)]
             for rcv in (None, h.users()[-1], p):
                 for named in named_set:
                     for namt in (a, a - 1, a + 1, 0):
